@@ -1541,7 +1541,7 @@ impl Connection {
     async fn router(
         config: HostConnectionConfig,
         stream: impl AsyncRead + AsyncWrite,
-        receiver: mpsc::Receiver<Task>,
+        mut receiver: mpsc::Receiver<Task>,
         error_sender: tokio::sync::oneshot::Sender<ConnectionError>,
         orphan_notification_receiver: mpsc::UnboundedReceiver<RequestId>,
         router_handle: Arc<RouterHandle>,
@@ -1580,7 +1580,7 @@ impl Connection {
         let w = Self::writer(
             BufWriter::with_capacity(8192, write_half),
             &handler_map,
-            receiver,
+            &mut receiver,
             write_coalescing_delay,
         );
         let o = Self::orphaner(&handler_map, orphan_notification_receiver);
@@ -1599,6 +1599,19 @@ impl Connection {
         for (_, handler) in response_handlers {
             // Ignore sending error, request was dropped
             let _ = handler.response_sender.send(Err(error.clone().into()));
+        }
+
+        // A request may still be on its way into the submit channel: its sender obtained
+        // capacity before the channel gets closed, and pushes the task afterwards. Merely
+        // dropping the receiver would leave such a task (and its response channel) stranded
+        // in the channel for as long as the `Connection` lives, i.e. its caller would wait
+        // forever. Close the channel and drain it until every outstanding permit is used up.
+        receiver.close();
+        while let Some(task) = receiver.recv().await {
+            let _ = task
+                .response_handler
+                .response_sender
+                .send(Err(error.clone().into()));
         }
 
         // If someone is listening for connection errors notify them
@@ -1693,7 +1706,7 @@ impl Connection {
     async fn writer(
         mut write_half: impl AsyncWrite + Unpin,
         handler_map: &StdMutex<ResponseHandlerMap>,
-        mut task_receiver: mpsc::Receiver<Task>,
+        task_receiver: &mut mpsc::Receiver<Task>,
         write_coalescing_delay: Option<WriteCoalescingDelay>,
     ) -> Result<(), BrokenConnectionError> {
         // When the Connection object is dropped, the sender half
